@@ -188,6 +188,9 @@ def _enc_view(enc, s):
 
 def oracle(c):
     op = c["op"]
+    if op == "seq":
+        res = [oracle(sub) for sub in c["calls"]]
+        return SKIP if any(isinstance(r, core.Skip) for r in res) else {"results": res}
     if op == "rc":
         views = [_enc_view(c["enc"], r) for r in c["rows"]]
         if any(v is None for v in views):
@@ -247,6 +250,10 @@ def _transcripts_expect(seq, ex):
 
 
 def agree(c, got, exp):
+    if c["op"] == "seq":
+        g = got.get("results") if isinstance(got, dict) else None
+        return isinstance(g, list) and len(g) == len(exp["results"]) and \
+            all(agree(sub, a, b) for sub, a, b in zip(c["calls"], g, exp["results"]))
     if c["op"] == "transcripts" and c["via"] == "gtf" and isinstance(got, dict) and "bounds" in got:
         # judged against the bounds the package itself parsed from the file
         if len(got["bounds"]) != len(c["exons"]):
@@ -299,75 +306,200 @@ def _make_input(c, E):
     return as_encoded_array([_text(r) for r in rows], E)
 
 
-def impl(c):
+def _apply_view(base, v):
+    """a FRESH, not yet materialised view of `base` selecting exactly the case's rows"""
+    k = v["kind"]
+    if k == "idx":
+        return base[list(v["idx"])]
+    if k == "idxarr":
+        return base[np.array(v["idx"], dtype=int)]
+    if k == "slice":
+        return base[v["a"]:v["b"]]
+    if k == "step":
+        return base[v["a"]::2]
+    if k == "mask":
+        return base[np.array(v["mask"], dtype=bool)]
+    if k == "rev":
+        return base[::-1]
+    raise ValueError(k)
+
+
+def _select(base_rows, v):
+    k = v["kind"]
+    if k in ("idx", "idxarr"):
+        return [base_rows[i] for i in v["idx"]]
+    if k == "slice":
+        return base_rows[v["a"]:v["b"]]
+    if k == "step":
+        return base_rows[v["a"]::2]
+    if k == "mask":
+        return [r for r, m in zip(base_rows, v["mask"]) if m]
+    if k == "rev":
+        return base_rows[::-1]
+    raise ValueError(k)
+
+
+def _view_of(rng, items, decoy):
+    """(base list, view spec) such that view(base) == items; `decoy()` makes an unrelated extra item"""
+    kind = rng.choice(["idx", "idxarr", "slice", "mask", "rev", "step"])
+    items = list(items)
+    if kind in ("idx", "idxarr"):
+        base = items + [decoy() for _ in range(rng.choice([0, 1, 2]))]
+        order = list(range(len(base)))
+        rng.shuffle(order)
+        v = {"kind": kind, "idx": [order.index(i) for i in range(len(items))]}
+        base = [base[i] for i in order]
+    elif kind == "slice":
+        pre = [decoy() for _ in range(rng.choice([0, 1, 2]))]
+        base = pre + items + [decoy() for _ in range(rng.choice([0, 1, 2]))]
+        v = {"kind": "slice", "a": len(pre), "b": len(pre) + len(items)}
+    elif kind == "step":
+        pre = [decoy() for _ in range(rng.choice([0, 1]))]
+        base = list(pre)
+        for it in items:
+            base += [it, decoy()]
+        v = {"kind": "step", "a": len(pre)}
+    elif kind == "mask":
+        base, mask = [], []
+        for it in items:
+            for _ in range(rng.choice([0, 0, 1, 2])):
+                base.append(decoy()); mask.append(False)
+            base.append(it); mask.append(True)
+        v = {"kind": "mask", "mask": mask}
+    else:
+        base = items[::-1]
+        v = {"kind": "rev"}
+    assert _select(base, v) == items
+    return base, v
+
+
+def _call(c):
+    """run the real function; return (live result, canon_fn) -- canon_fn re-reads the live object"""
     bnp, EncodedArray, EncodedRaggedArray, as_encoded_array, Err = _bnp()
     from bionumpy.sequence import get_reverse_complement, translate_dna_to_protein
     op = c["op"]
-    try:
-        if op == "rc":
-            E = _encs()[c["enc"]]
-            shape = c.get("shape", "ragged")
-            if shape == "entry":
-                from bionumpy.datatypes import SequenceEntry
-                seqs = as_encoded_array([_text(r) for r in c["rows"]], E)
-                e = SequenceEntry([f"s{i}" for i in range(len(c["rows"]))], seqs)
-                r = get_reverse_complement(e)
-                if [x.to_string() for x in r.name] != [f"s{i}" for i in range(len(c["rows"]))]:
+    if op == "rc":
+        E = _encs()[c["enc"]]
+        shape = c.get("shape", "ragged")
+        n = len(c["rows"])
+        if "view" in c:
+            base = as_encoded_array([_text(r) for r in c["view"]["base"]], E)
+            r = get_reverse_complement(_apply_view(base, c["view"]))
+        elif shape == "entry":
+            from bionumpy.datatypes import SequenceEntry
+            seqs = as_encoded_array([_text(r) for r in c["rows"]], E)
+            e = SequenceEntry([f"s{i}" for i in range(n)], seqs)
+            r = get_reverse_complement(e)
+
+            def canon_entry(o):
+                if [x.to_string() for x in o.name] != [f"s{i}" for i in range(n)]:
                     return {"err": "other:names-changed"}
-                r = r.sequence
-            else:
-                r = get_reverse_complement(_make_input(c, E))
-            rows, enc = _rows_out(r, E)
+                rows, enc = _rows_out(o.sequence, E)
+                return {"rows": rows, "enc_same": bool(enc == E)}
+            return r, canon_entry
+        else:
+            r = get_reverse_complement(_make_input(c, E))
+
+        def canon_rc(o):
+            rows, enc = _rows_out(o, E)
             return {"rows": rows, "enc_same": bool(enc == E)}
-        if op == "strand":
-            E = _encs()[c["enc"]]
-            from bionumpy.datatypes import Bed6
-            names = [f"c{i}" for i in range(len(c["seqs"]))]
-            ivs = c["ivs"]
-            bed = Bed6([names[i[0]] for i in ivs], [i[1] for i in ivs], [i[2] for i in ivs], ["x"] * len(ivs),
-                       [0] * len(ivs), [chr(i[3]) for i in ivs])
-            if c["via"] == "dna":
-                from bionumpy.sequence.dna import get_strand_specific_sequences
-                r = get_strand_specific_sequences(as_encoded_array(_text(c["seqs"][0]), E), bed)
-            else:
-                from bionumpy.genomic_data.genomic_sequence import GenomicSequence
-                gs = GenomicSequence.from_dict({n: _text(s) for n, s in zip(names, c["seqs"])})
-                r = gs.extract_intervals(bed, stranded=True)
-            rows, enc = _rows_out(r, E)
+        return r, canon_rc
+    if op == "strand":
+        E = _encs()[c["enc"]]
+        from bionumpy.datatypes import Bed6
+        names = [f"c{i}" for i in range(len(c["seqs"]))]
+        ivs = c["view"]["base"] if "view" in c else c["ivs"]
+        bed = Bed6([names[i[0]] for i in ivs], [i[1] for i in ivs], [i[2] for i in ivs], ["x"] * len(ivs),
+                   [0] * len(ivs), [chr(i[3]) for i in ivs])
+        if "view" in c:
+            bed = _apply_view(bed, c["view"])      # the interval table itself is a fresh selection of a larger one
+        if c["via"] == "dna":
+            from bionumpy.sequence.dna import get_strand_specific_sequences
+            r = get_strand_specific_sequences(as_encoded_array(_text(c["seqs"][0]), E), bed)
+        else:
+            from bionumpy.genomic_data.genomic_sequence import GenomicSequence
+            gs = GenomicSequence.from_dict({n: _text(s) for n, s in zip(names, c["seqs"])})
+            r = gs.extract_intervals(bed, stranded=True)
+
+        def canon_strand(o):
+            rows, enc = _rows_out(o, E)
             return {"rows": rows, "enc_same": bool(enc == E)}
-        if op in ("translate", "translate_enc"):
-            via = c.get("via", "list")
-            texts = [_text(r) for r in c["rows"]]
-            if via == "entry":
-                from bionumpy.datatypes import SequenceEntry
-                r = translate_dna_to_protein(SequenceEntry([f"s{i}" for i in range(len(texts))], texts)).sequence
-            elif via.startswith("enc:"):
-                r = translate_dna_to_protein(as_encoded_array(texts, _encs()[via[4:]]))
-            elif via == "ragged":
-                r = translate_dna_to_protein(as_encoded_array(texts))
-            else:
-                r = translate_dna_to_protein(texts)
-            rows, enc = _rows_out(r, None)
-            return {"rows": rows}
-        if op == "transcripts":
-            from bionumpy.sequence.genes import get_transcript_sequences
-            ref = _text(c["seq"])
-            if c["via"] == "gtf":
-                entries = _gtf_entries(c["exons"])
-            else:
-                entries = _DuckEntries([_DuckExon(f"t{t}", chr(st), a, b) for t, st, a, b in c["exons"]])
-            r = get_transcript_sequences(entries, ref)
-            names = [x.to_string() if hasattr(x, "to_string") else str(x) for x in r.name]
-            rows, enc = _rows_out(r.sequence, None)
+        return r, canon_strand
+    if op in ("translate", "translate_enc"):
+        via = c.get("via", "list")
+        texts = [_text(r) for r in c["rows"]]
+        if "view" in c:
+            base = as_encoded_array([_text(r) for r in c["view"]["base"]])
+            r = translate_dna_to_protein(_apply_view(base, c["view"]))
+        elif via == "entry":
+            from bionumpy.datatypes import SequenceEntry
+            r = translate_dna_to_protein(SequenceEntry([f"s{i}" for i in range(len(texts))], texts))
+            return r, (lambda o: {"rows": _rows_out(o.sequence, None)[0]})
+        elif via.startswith("enc:"):
+            r = translate_dna_to_protein(as_encoded_array(texts, _encs()[via[4:]]))
+        elif via == "ragged":
+            r = translate_dna_to_protein(as_encoded_array(texts))
+        else:
+            r = translate_dna_to_protein(texts)
+        return r, (lambda o: {"rows": _rows_out(o, None)[0]})
+    if op == "transcripts":
+        from bionumpy.sequence.genes import get_transcript_sequences
+        ref = _text(c["seq"])
+        if c["via"] == "gtf":
+            entries = _gtf_entries(c["exons"])
+        else:
+            entries = _DuckEntries([_DuckExon(f"t{t}", chr(st), a, b) for t, st, a, b in c["exons"]])
+        r = get_transcript_sequences(entries, ref)
+
+        def canon_tr(o):
+            names = [x.to_string() if hasattr(x, "to_string") else str(x) for x in o.name]
+            rows, enc = _rows_out(o.sequence, None)
             out = {"names": names, "rows": rows}
             if c["via"] == "gtf":
                 # the exon bounds as the package parsed them (whether GTF coordinates are shifted is C02's question)
                 out["bounds"] = [[int(a), int(b)] for a, b in zip(np.asarray(entries.start), np.asarray(entries.stop))]
             return out
-    except Err:
-        return {"err": "encoding"}
+        return r, canon_tr
+    raise ValueError(op)
+
+
+def _err(e):
+    bnp, EncodedArray, EncodedRaggedArray, as_encoded_array, Err = _bnp()
+    return {"err": "encoding"} if isinstance(e, Err) else {"err": "other:" + type(e).__name__}
+
+
+def impl(c):
+    if c["op"] == "seq":
+        # several calls in one process; every result is read only AFTER the last call (a result that aliases a shared /
+        # cached output buffer is silently overwritten by the later call)
+        live = []
+        for sub in c["calls"]:
+            try:
+                live.append(_call(sub))
+            except Exception as e:
+                live.append(_err(e))
+        out = []
+        for x in live:
+            if isinstance(x, dict):
+                out.append(x)
+            else:
+                try:
+                    out.append(x[1](x[0]))
+                except Exception as e:
+                    out.append(_err(e))
+        return {"results": out}
+    try:
+        obj, canon_fn = _call(c)
+        return canon_fn(obj)
     except Exception as e:
-        return {"err": "other:" + type(e).__name__}
+        return _err(e)
+
+
+def impl_live(c):
+    import copy
+    obj, canon_fn = _call(c)
+    # reading a ragged result materialises it in place; read a shallow clone so the live object keeps aliasing what it aliases
+    return obj, (lambda o: canon_fn(copy.copy(o)))
 
 
 class _DuckExon:
@@ -426,9 +558,11 @@ def _codes(enc, s):
 
 def model_request(c):
     op = c["op"]
+    if op == "seq":
+        return None      # the Lean model is pure: a sequence of calls is the list of the single calls (compared there)
     if op == "rc":
         return {"op": "rc", "enc": c["enc"], "codes": [_codes(c["enc"], r) for r in c["rows"]],
-                "flat": c.get("shape", "ragged") in ("flat", "str1")}
+                "flat": c.get("shape", "ragged") in ("flat", "str1") and "view" not in c}
     if op == "strand":
         return {"op": "strand", "enc": c["enc"], "via": c["via"], "codes": [_codes(c["enc"], s) for s in c["seqs"]],
                 "ivs": c["ivs"]}
@@ -448,8 +582,130 @@ def _alpha(enc, lower=True):
     return A + ([a + 32 for a in A] if lower else [])
 
 
+def _small_calls(rng, n):
+    """small single calls for call sequences and core's history probe"""
+    out = []
+    up = [ord(ch) for ch in "TCAG"]
+    while len(out) < n:
+        kind = rng.choice(["rc", "rc", "translate", "translate", "strand", "transcripts"])
+        if kind == "rc":
+            enc = rng.choice(PROP_ENCS)
+            A = _alpha(enc)
+            rows = [[rng.choice(A) for _ in range(rng.choice([0, 1, 2, 3, 5, 8]))] for _ in range(rng.choice([1, 1, 2, 3]))]
+            shape = rng.choice(["ragged", "ragged", "entry", "flat"] + (["str"] if enc == "ASCII" else []))
+            if shape == "flat":
+                rows = rows[:1]
+            out.append({"op": "rc", "enc": enc, "rows": rows, "shape": shape})
+        elif kind == "translate":
+            rows = [[b + 32 * (rng.random() < 0.2) for _ in range(rng.choice([0, 1, 2, 3, 5])) for b in (rng.choice(up), rng.choice(up), rng.choice(up))]
+                    for _ in range(rng.choice([1, 1, 2, 3]))]
+            if not any(rows):
+                rows[0] = [84, 71, 65]
+            out.append({"op": "translate", "rows": rows, "via": rng.choice(["list", "entry", "ragged"])})
+        elif kind == "strand":
+            enc = rng.choice(PROP_ENCS)
+            A = _alpha(enc)
+            s = [rng.choice(A) for _ in range(rng.choice([3, 6, 10]))]
+            ivs = []
+            for _ in range(rng.choice([1, 2, 3])):
+                a = rng.randrange(len(s) + 1)
+                ivs.append([0, a, rng.randrange(a, len(s) + 1), rng.choice([43, 45])])
+            via = "genomic" if (enc == "ACGTN" and rng.random() < 0.5) else "dna"
+            out.append({"op": "strand", "enc": enc, "via": via, "seqs": [s], "ivs": ivs})
+        else:
+            A = _alpha("ACGTN")
+            s = [rng.choice(A) for _ in range(rng.choice([3, 6, 10]))]
+            exons, pos = [], 0
+            for t in range(rng.choice([1, 2])):
+                st = rng.choice([43, 45])
+                a = rng.randrange(len(s) + 1)
+                exons.append([t, st, a, rng.randrange(a, len(s) + 1)])
+            out.append({"op": "transcripts", "seq": s, "exons": exons, "via": "duck"})
+    return out
+
+
+def _size(c):
+    return sum(len(r) for r in c.get("rows", [])) + sum(iv[2] - iv[1] for iv in c.get("ivs", [])) + \
+        sum(e[3] - e[2] for e in c.get("exons", []))
+
+
+def _sequences(rng, n_seq):
+    """explicit call sequences: same function and same encoding with the LATER input no larger than the earlier one
+    (an output buffer shared between calls is overwritten in place), A-B-A, and mixed sequences"""
+    pool = _small_calls(rng, 4 * n_seq)
+    by = {}
+    for c in pool:
+        by.setdefault((c["op"], c.get("enc"), c.get("via"), c.get("shape")), []).append(c)
+    groups = [g for g in by.values() if len(g) >= 2]
+    for _ in range(n_seq):
+        r = rng.random()
+        if r < 0.6:
+            g = rng.choice(groups)
+            calls = sorted(rng.sample(g, min(len(g), rng.choice([2, 2, 3]))), key=_size, reverse=True)
+        elif r < 0.8:
+            g = rng.choice(groups)
+            a = rng.choice(g)
+            calls = [a, rng.choice(g), dict(a)]
+        else:
+            calls = rng.sample(pool, 3)
+        yield {"op": "seq", "calls": calls}
+
+
+def live_cases(tier, rng):
+    return _small_calls(rng, 1500 if tier in ("thorough", "widen") else 600)
+
+
 def cases(tier, rng):
     big = tier in ("thorough", "widen")
+    # 0. call sequences (history) -- results are read after the last call
+    yield from _sequences(rng, 2000 if big else 300)
+    # 0b. fresh, not yet materialised views as inputs: ragged sequence arrays and interval tables
+    for c in _small_calls(rng, 4000 if big else 600):
+        if c["op"] == "rc" and c.get("shape") in ("ragged", "entry", "str"):
+            E = c["enc"]
+            A = _alpha(E)
+            base, v = _view_of(rng, [list(r) for r in c["rows"]], lambda: [rng.choice(A) for _ in range(rng.choice([0, 1, 2, 4]))])
+            yield {"op": "rc", "enc": E, "rows": c["rows"], "shape": "ragged", "view": dict(v, base=base)}
+        elif c["op"] == "translate":
+            up_ = [84, 67, 65, 71]
+            base, v = _view_of(rng, [list(r) for r in c["rows"]],
+                               lambda: [rng.choice(up_) for _ in range(3 * rng.choice([0, 1, 2]))])
+            yield {"op": "translate", "rows": c["rows"], "via": "ragged", "view": dict(v, base=base)}
+        elif c["op"] == "strand":
+            n = len(c["seqs"][0])
+
+            def decoy_iv():
+                a = rng.randrange(n + 1)
+                return [0, a, rng.randrange(a, n + 1), rng.choice([43, 45])]
+            base, v = _view_of(rng, [list(iv) for iv in c["ivs"]], decoy_iv)
+            yield dict(c, view=dict(v, base=base))
+    # 0c. many intervals / rows (>= 17) in one call
+    for enc in PROP_ENCS:
+        A = _alpha(enc)
+        for _ in range(40 if big else 6):
+            s = [rng.choice(A) for _ in range(rng.choice([6, 12, 30]))]
+            n = len(s)
+            ivs = []
+            for _ in range(rng.choice([17, 18, 20, 33, 64])):
+                a = rng.randrange(n + 1)
+                ivs.append([0, a, min(n, a + rng.choice([0, 1, 2, 3, 5])), rng.choice([43, 45])])
+            yield {"op": "strand", "enc": enc, "via": "dna", "seqs": [s], "ivs": ivs}
+            if enc == "ACGTN":
+                yield {"op": "strand", "enc": enc, "via": "genomic", "seqs": [s], "ivs": ivs}
+            rows = [[rng.choice(A) for _ in range(rng.choice([0, 1, 2, 3, 5]))] for _ in range(rng.choice([17, 20, 40]))]
+            yield {"op": "rc", "enc": enc, "rows": rows, "shape": rng.choice(["ragged", "entry"])}
+    up0 = [84, 67, 65, 71]
+    for _ in range(20 if big else 4):
+        rows = [[rng.choice(up0) for _ in range(3 * rng.choice([0, 1, 2, 3]))] for _ in range(rng.choice([17, 20, 40]))]
+        yield {"op": "translate", "rows": rows, "via": rng.choice(["list", "entry", "ragged"])}
+    A5 = _alpha("ACGTN")
+    for _ in range(20 if big else 4):
+        s = [rng.choice(A5) for _ in range(30)]
+        exons = []
+        for t in range(rng.choice([17, 20, 30])):
+            a = rng.randrange(len(s) + 1)
+            exons.append([t, rng.choice([43, 45]), a, min(len(s), a + rng.choice([0, 1, 2, 4]))])
+        yield {"op": "transcripts", "seq": s, "exons": exons, "via": "duck"}
     # 1. every symbol of every encoding as a one-symbol array (flat and one-row ragged)
     for enc in ENC_NAMES:
         for b in _alpha(enc):
@@ -589,6 +845,8 @@ def cases(tier, rng):
 
 def nontrivial(c):
     op = c["op"]
+    if op == "seq":
+        return True
     if op == "rc":
         flat = [b for r in c["rows"] for b in r]
         return any(b >= 97 or b in (78,) for b in flat) or len(c["rows"]) >= 2
@@ -606,6 +864,19 @@ def _has_nul(got):
 def finding_key(c, got, exp):
     """names the failing input class"""
     op = c["op"]
+    if op == "seq":
+        g = got.get("results") if isinstance(got, dict) else None
+        if isinstance(g, list) and len(g) == len(c["calls"]):
+            for sub, a, b in zip(c["calls"], g, exp["results"]):
+                if not agree(sub, a, b):
+                    if agree(sub, impl(sub), b):
+                        return f"history:{sub['op']}:result-changed-after-a-later-call"
+                    return finding_key(sub, a, b)
+        return "history:sequence"
+    if "view" in c:
+        plain = {k: v for k, v in c.items() if k != "view"}
+        if agree(plain, impl(plain), exp):
+            return f"view:{op}:wrong-on-fresh-{c['view']['kind']}-view"
     if op == "rc":
         flat = [b for r in c["rows"] for b in r]
         if c["enc"] == "ASCII" and any(b >= 97 for b in flat) and _has_nul(got):
